@@ -79,7 +79,7 @@ def run(R):
                     {"build_log": R.harness_log[-3000:]}, no_input=True)
         return
     corpus = vlib.load_corpus(PID)
-    n = 4000 if R.tier == "quick" else 150000
+    n = 4000 if R.tier == "quick" else 400000
     cases = corpus + [gen_trie.gen_trie_case(R.rng) for _ in range(n)]
     if R.tier == "thorough":
         cases += small_scope_cases()
